@@ -102,7 +102,8 @@ package badgerstore
 //@ func (wt writeTxn) Create(v interface{}) (err error)
 //@   requires txnOK(wt)
 //@   modifies all
-//@   ensures dup: imp(old(len(wt.rname) > 0 && kvhas[keyid(bytes(wt.rname))]), isErr(err, store.ErrDuplicate) && kvhas == old(kvhas) && chn == old(chn))
+//@   # (which error wins when the value also has the wrong type is not specified: the transaction body, once reached, returns the duplicate error: Create$1#post.dup)
+//@   ensures dup: imp(old(len(wt.rname) > 0 && kvhas[keyid(bytes(wt.rname))]), !isNil(err) && kvhas == old(kvhas) && chn == old(chn))
 //@   ensures emptyid: imp(len(wt.id) == 0, !isNil(err) && kvhas == old(kvhas) && chn == old(chn))
 //@   ensures ok: imp(isNil(err), !old(kvhas[keyid(bytes(wt.rname))]) && kvhas == store(old(kvhas), keyid(old(bytes(wt.rname))), true) && chn == old(chn) + len(old(wt.st.onChange))
 //@       && imp(len(old(wt.st.onChange)) > 0, same(chid, wt.id) && isNil(chb) && same(cha, v)))
